@@ -49,6 +49,8 @@ Apply(s, Reserved, o, id) ==
   CASE o.op = "setattr" -> SetAttr(s, Reserved, o.name, o.kind, id)
     [] o.op = "add"     -> Add(s, Reserved, o.name, o.kind, o.mode, id)
     [] o.op = "get"     -> Keep(s)
+    [] o.op = "readd"   -> Keep(s)      \* the object already bound to o.name is assigned / added again under that name:
+                                        \* nothing may change (whether the call is accepted or refused is left open)
     [] o.op = "del"     -> Reject(s)
     [] o.op = "subclass"-> Reject(s)
     [] o.op = "elab"    -> [st |-> [s EXCEPT !.elab = TRUE], raised |-> FALSE]
